@@ -25,7 +25,7 @@ PID = "C15"
 THEOREMS = ["copy_reads_equal", "copy_root_reads_equal", "mv_reads_equal_plain", "copy_frame", "copy_frame_new", "mv_frame",
             "mv_source_gone_partial", "mv_source_gone_spec", "mv_source_gone_current_false", "d4_counterexample",
             "mv_cross_eq_cp", "mv_cross_file_keeps_source", "list_exact", "d5_counterexample", "isCooler_total",
-            "create_append_frame", "create_root_append_frame", "create_w_replaces", "create_w_eq", "recreate_replaces",
+            "copy_overwrite_eq", "create_append_frame", "create_root_append_frame", "create_w_replaces", "create_w_eq", "recreate_replaces",
             "step_wf", "run_wf", "step_lf", "run_lf", "list_exact_history"]
 CHUNK = 1
 FANCHUNK = 75
@@ -316,11 +316,16 @@ class Sess:
                             base[f] = True
                     vops.append(dict(hist[i], v=base))
                 res = drv().ask("C15.run", ops=vops, files=FILES, cands=CANDS, observe_from=first)["steps"]
-                if any(self._corner(m) for m in res[first:]):
+                if any(self._corner(m) for m in res[first:k]):
                     continue
-                want = self.trace[first:] + [impl]
-                if all(self._canon(m) == w for m, w in zip(res[first:], want)):
-                    return sub, first, vops
+                if not all(self._canon(m) == w for m, w in zip(res[first:k], self.trace[first:])):
+                    continue
+                why = self._corner(res[k])
+                if why:
+                    # under the variant that explains everything seen so far this step has no verdict
+                    return ("corner", why)
+                if self._canon(res[k]) == impl:
+                    return ("ok", sub, first, vops)
         return None
 
     def step(self, op, alt):
@@ -341,8 +346,10 @@ class Sess:
             self.trace.append(impl)
             return None
         ex = self._explain(op, impl)
+        if ex is not None and ex[0] == "corner":
+            return ex
         if ex is not None:
-            sub, first, vops = ex
+            _, sub, first, vops = ex
             self.vops = vops
             self.flags = {f for f in FLAGS if vops[-1]["v"][f]}
             self.trace.append(impl)
